@@ -1244,3 +1244,219 @@ def rule_py_filtered_concatenate(rep, floor=2):
             r.check(bool(tests), "%s:%s:%s(%s)#%d" % (rel, fd.name, nm, L, k), m.where(c), "%s in %s passes the filtered list %s (`%s`) to %s without testing len(%s): if every item is filtered out there is nothing to concatenate" % (
                 fd.name, rel, L, ast.unparse(src[-1].value)[:50], nm, L), detail="len(%s) tested first" % L)
     return r.done()
+
+
+def rule_py_numba_view_start(rep, floor=5):
+    r = rep.rule("VIEW.py-numba-start", "in the Numba lowering of element access (functions lower_getitem_at* of _connect/_numba/layout.py) the index into a buffer is derived from viewproxy.start + atval: "
+                 "no division, remainder or multiplication is applied to the view-relative atval itself - a view produced by slicing or by nesting in a list has start != 0 (BitMaskedArray: bit start+at, not byte start + at//8)", floor=floor)
+    m = pf.module("_connect/_numba/layout.py")
+    k = 0
+    for q, fd in sorted(m.funcs.items()):
+        if not q.split(".")[-1].startswith("lower_getitem_at"):
+            continue
+        uses_at = False
+        for c in ast.walk(fd):
+            if isinstance(c, ast.Call) and isinstance(c.func, ast.Attribute) and isinstance(c.func.value, ast.Name) and c.func.value.id == "builder" and c.func.attr in ("sdiv", "srem", "udiv", "urem", "mul", "shl", "lshr", "ashr"):
+                uses_at = True
+                k += 1
+                bare = [a for a in c.args if isinstance(a, ast.Name) and a.id == "atval"]
+                r.check(not bare, "%s#%s%d" % (q, c.func.attr, k), m.where(c), "%s computes `%s` on the view-relative atval: the position in the buffer is viewproxy.start + atval, so the quotient/remainder must be taken of that sum" % (q, ast.unparse(c)[:60]), detail="arithmetic on start + atval")
+        if not uses_at:
+            k += 1
+            r.ok("%s#none" % q, "no scaled index")
+    return r.done()
+
+
+def rule_py_numba_lowering(rep, floor=20):
+    r = rep.rule("VIEW.py-numba-lowering", "in the Numba lowering code (_connect/_numba/*.py): (a) a Python variable computed from builder.load(slot) is not used after a later builder.store(..., slot) in the same function without being recomputed - "
+                 "it describes the slot's old content (the length of the previous partition); (b) the element index handed to ArrayBuilder_append_nowrap is absolute: it is derived from <view>.start or from a loop over start..stop; "
+                 "(c) a half-open interval test built from two icmp_signed on the same value uses opposite directions for the two bounds (lo <= x and x < hi); "
+                 "(d) a lower_getitem_at that forwards the caller's untouched atval declares it with the caller's attype (numba.intp only for an index it computed itself); "
+                 "(e) a new reference taken through pyapi (object_getattr_string, unserialize, call_*...) is decref'd or returned by the function that took it; "
+                 "(f) every *Type.tolayout consumes its `fields` argument (forwards it, applies it or asserts it empty); "
+                 "(g) for each node type, tolookup and form_fill extract the same buffers with the same NumPy call (asarray vs ascontiguousarray)", floor=floor)
+    for rel in [x for x in pf.all_modules() if x.startswith("_connect/_numba")]:
+        m = pf.module(rel)
+        for fd in ast.walk(m.tree):
+            if not isinstance(fd, ast.FunctionDef):
+                continue
+            loads = {}
+            for s_ in ast.walk(fd):
+                if isinstance(s_, ast.Assign) and len(s_.targets) == 1 and isinstance(s_.targets[0], ast.Name):
+                    for c in ast.walk(s_.value):
+                        if isinstance(c, ast.Call) and isinstance(c.func, ast.Attribute) and c.func.attr == "load" and isinstance(c.func.value, ast.Name) and c.func.value.id == "builder" and c.args:
+                            loads.setdefault(s_.targets[0].id, []).append((ast.unparse(c.args[0]), s_.lineno))
+            stores = [(ast.unparse(c.args[1]), c.lineno) for c in ast.walk(fd) if isinstance(c, ast.Call) and isinstance(c.func, ast.Attribute) and c.func.attr == "store"
+                      and isinstance(c.func.value, ast.Name) and c.func.value.id == "builder" and len(c.args) == 2]
+            for v, ls in sorted(loads.items()):
+                for slot, l0 in ls:
+                    key = "%s:%s:%s<-load(%s)" % (rel, fd.name, v, slot)
+                    stale = None
+                    for st, l1 in stores:
+                        if st == slot and l1 > l0:
+                            uses = sorted(n.lineno for n in ast.walk(fd) if isinstance(n, ast.Name) and n.id == v and isinstance(n.ctx, ast.Load) and n.lineno > l1)
+                            redef = [a_.lineno for a_ in ast.walk(fd) if isinstance(a_, ast.Assign) and any(isinstance(t, ast.Name) and t.id == v for t in a_.targets) and a_.lineno > l0]
+                            if uses and not [x for x in redef if x <= uses[0]]:
+                                stale = (l1, uses[0])
+                    r.check(stale is None, key, "src/awkward/%s:%d" % (rel, l0), "%s in %s computes %s from builder.load(%s), stores a new value into that slot at line %s and still uses %s at line %s" % (
+                        fd.name, rel, v, slot, stale and stale[0], v, stale and stale[1]), detail="not used after the slot is overwritten")
+            # (b)
+            k = 0
+            for c in ast.walk(fd):
+                if isinstance(c, ast.Call) and any(isinstance(a, ast.Attribute) and a.attr == "ArrayBuilder_append_nowrap" for a in c.args):
+                    tup = [a for a in c.args if isinstance(a, ast.Tuple)]
+                    if not tup or not isinstance(tup[0].elts[-1], ast.Name):
+                        continue
+                    k += 1
+                    at = tup[0].elts[-1].id
+                    srcs = [ast.unparse(a_.value) for a_ in ast.walk(fd) if isinstance(a_, ast.Assign) and any(isinstance(t, ast.Name) and t.id == at for t in a_.targets)]
+                    ok = any(".start" in s0 or "loop.index" in s0 for s0 in srcs)
+                    r.check(ok, "%s:%s:append_nowrap#%d" % (rel, fd.name, k), m.where(c), "%s in %s passes `%s` to ArrayBuilder_append_nowrap together with the whole node at view.pos, but %s is never offset by the view's start: the element of another list/slice is appended" % (
+                        fd.name, rel, at, at), detail="index offset by view.start")
+            # (c)
+            k = 0
+            for c in ast.walk(fd):
+                if isinstance(c, ast.Call) and isinstance(c.func, ast.Attribute) and c.func.attr == "and_" and len(c.args) == 2 and all(
+                        isinstance(a, ast.Call) and isinstance(a.func, ast.Attribute) and a.func.attr == "icmp_signed" and len(a.args) == 3 and isinstance(a.args[0], ast.Constant) for a in c.args):
+                    a, b = c.args
+                    # normalise to (value op bound): which operand is shared?
+                    ta, tb = [ast.unparse(x) for x in a.args[1:]], [ast.unparse(x) for x in b.args[1:]]
+                    shared = set(ta) & set(tb)
+                    if len(shared) != 1:
+                        continue
+                    x = shared.pop()
+
+                    def direction(op, operands):
+                        # True when the comparison bounds x from above (x < hi / hi > x)
+                        lt = op in ("<", "<=")
+                        return lt if operands[0] == x else not lt
+                    k += 1
+                    da, db = direction(a.args[0].value, ta), direction(b.args[0].value, tb)
+                    r.check(da != db, "%s:%s:interval#%d" % (rel, fd.name, k), m.where(c), "%s in %s tests `%s` and `%s` together: both bound %s from the same side, so this is not the interval test it is written as" % (
+                        fd.name, rel, ast.unparse(a)[:50], ast.unparse(b)[:50], x), detail="one lower and one upper bound")
+    # (d) index type and index value travel together
+    m = pf.module("_connect/_numba/layout.py")
+    for q, fd in sorted(m.funcs.items()):
+        if not q.split(".")[-1].startswith("lower_getitem_at"):
+            continue
+        k = 0
+        for c in ast.walk(fd):
+            if isinstance(c, ast.Call) and isinstance(c.func, ast.Attribute) and c.func.attr.startswith("lower_getitem_at") and len(c.args) >= 8:
+                ty, val = c.args[6], c.args[7]
+                k += 1
+                local = isinstance(val, ast.Name) and any(isinstance(a_, ast.Assign) and a_.lineno < c.lineno and any(isinstance(t_, ast.Name) and t_.id == val.id for t_ in a_.targets) for a_ in ast.walk(fd))
+                ok = ast.unparse(ty) == "attype" or local or not isinstance(val, ast.Name)
+                r.check(ok, "%s:forward#%d" % (q, k), m.where(c), "%s forwards the caller's `%s` to %s but declares its type as %s instead of attype: an int32/uint8 index is then mixed with intp arithmetic (LLVM type error) and unsignedness is lost" % (
+                    q, ast.unparse(val), c.func.attr, ast.unparse(ty)), detail="attype with the caller's value, intp only with a locally computed one")
+    # (e) new references obtained from the C API are released
+    newref = ("object_getattr_string", "unserialize", "call_function_objargs", "call_method", "import_module_noblock", "long_from_ssize_t", "long_from_longlong", "tuple_pack", "list_new", "dict_new",
+              "from_native_value", "string_from_constant_string", "bool_from_long", "float_from_double")
+    for rel in [x for x in pf.all_modules() if x.startswith("_connect/_numba")]:
+        m = pf.module(rel)
+        for fd in ast.walk(m.tree):
+            if not isinstance(fd, ast.FunctionDef):
+                continue
+            for s_ in ast.walk(fd):
+                if not (isinstance(s_, ast.Assign) and len(s_.targets) == 1 and isinstance(s_.targets[0], ast.Name) and isinstance(s_.value, ast.Call) and isinstance(s_.value.func, ast.Attribute)
+                        and s_.value.func.attr in newref and "pyapi" in ast.unparse(s_.value.func.value)):
+                    continue
+                v = s_.targets[0].id
+                dec = any(isinstance(c, ast.Call) and isinstance(c.func, ast.Attribute) and c.func.attr == "decref" and c.args and isinstance(c.args[-1], ast.Name) and c.args[-1].id == v for c in ast.walk(fd))
+                ret = any(isinstance(r_, ast.Return) and r_.value is not None and v in {n.id for n in ast.walk(r_.value) if isinstance(n, ast.Name)} for r_ in ast.walk(fd))
+                r.check(dec or ret, "%s:%s:newref %s" % (rel, fd.name, v), m.where(s_), "%s in %s obtains a new reference `%s = %s` and neither decrefs nor returns it: one Python reference leaks per call" % (fd.name, rel, v, ast.unparse(s_.value)[:50]), detail="decref or returned")
+    # (f) parameters every implementation of a method must honour
+    m = pf.module("_connect/_numba/layout.py")
+    for meth, param in (("tolayout", "fields"),):
+        for c in ast.walk(m.tree):
+            if isinstance(c, ast.ClassDef):
+                for fd in c.body:
+                    if isinstance(fd, ast.FunctionDef) and fd.name == meth and param in [a.arg for a in fd.args.args]:
+                        trivial = len(fd.body) == 1 and isinstance(fd.body[0], (ast.Raise, ast.Pass))
+                        used = any(isinstance(n, ast.Name) and n.id == param and isinstance(n.ctx, ast.Load) for n in ast.walk(fd))
+                        r.check(used or trivial, "%s.%s(%s)" % (c.name, meth, param), m.where(fd), "%s.%s never looks at its parameter %s: the pending field selection of a view (a.x on a list of records) is dropped when the array is boxed" % (c.name, meth, param), detail="parameter consumed")
+    # (g) tolookup and form_fill extract the same buffers the same way
+    m = pf.module("_connect/_numba/layout.py")
+
+    def _extract(fd):
+        return {(x.func.attr, ast.unparse(x.args[0])) for x in ast.walk(fd) if isinstance(x, ast.Call) and isinstance(x.func, ast.Attribute) and x.func.attr in ("asarray", "ascontiguousarray", "array") and x.args}
+    for c in ast.walk(m.tree):
+        if isinstance(c, ast.ClassDef):
+            fs = {fd.name: fd for fd in c.body if isinstance(fd, ast.FunctionDef)}
+            if "tolookup" in fs and "form_fill" in fs:
+                a, b = _extract(fs["tolookup"]), _extract(fs["form_fill"])
+                r.check(a == b, "%s:tolookup~form_fill" % c.name, m.where(fs["form_fill"]), "%s.tolookup extracts %s but form_fill (the path taken when a VirtualArray materialises) extracts %s: the compiled code steps through the buffer by itemsize in both cases" % (
+                    c.name, sorted(a), sorted(b)), detail="same buffer extraction")
+    return r.done()
+
+
+def rule_py_self_attrs(rep, floor=500):
+    r = rep.rule("ATTR.py-self-defined", "(a) every attribute a method reads on `self` is defined somewhere in the class's family inside the package - assigned on self/cls, defined as a method, property or class attribute in the class, an ancestor or a descendant "
+                 "(tabled: names supplied by a base class outside the package); (b) every attribute read or written on a variable named `lookup` in the Numba connector is one the class Lookup defines", floor=floor)
+    table = load_table("py_selfattr_exceptions.json")
+    mods = [x for x in pf.all_modules() if "generated_parser" not in x]
+    classes = {}
+    for rel in mods:
+        for c in ast.walk(pf.module(rel).tree):
+            if isinstance(c, ast.ClassDef):
+                classes.setdefault(c.name, []).append((rel, c))
+
+    def own(c):
+        out = set()
+        for n in c.body:
+            if isinstance(n, (ast.FunctionDef, ast.ClassDef)):
+                out.add(n.name)
+            if isinstance(n, (ast.Assign, ast.AnnAssign)):
+                for t_ in (n.targets if isinstance(n, ast.Assign) else [n.target]):
+                    for x in ast.walk(t_):
+                        if isinstance(x, ast.Name):
+                            out.add(x.id)
+        for n in ast.walk(c):
+            if isinstance(n, ast.Attribute) and isinstance(n.ctx, ast.Store) and isinstance(n.value, ast.Name) and n.value.id in ("self", "cls", "out"):
+                out.add(n.attr)
+        return out
+
+    def ancestors(c, seen):
+        out = set()
+        for b in c.bases:
+            bn = ast.unparse(b).split(".")[-1]
+            if bn in classes and bn not in seen:
+                for _, bc in classes[bn]:
+                    out |= own(bc) | ancestors(bc, seen | {bn})
+        return out
+
+    def descendants(name, seen):
+        out = set()
+        for nm, lst in classes.items():
+            for _, c in lst:
+                if nm not in seen and any(ast.unparse(b).split(".")[-1] == name for b in c.bases):
+                    out |= own(c) | descendants(nm, seen | {nm})
+        return out
+    for rel in mods:
+        m = pf.module(rel)
+        for c in ast.walk(m.tree):
+            if not isinstance(c, ast.ClassDef):
+                continue
+            d = own(c) | ancestors(c, {c.name}) | descendants(c.name, {c.name})
+            seen = set()
+            for n in ast.walk(c):
+                if isinstance(n, ast.Attribute) and isinstance(n.ctx, ast.Load) and isinstance(n.value, ast.Name) and n.value.id == "self" and not n.attr.startswith("__") and n.attr not in seen:
+                    seen.add(n.attr)
+                    key = "%s:%s.%s" % (rel, c.name, n.attr)
+                    if n.attr not in d and key in table:
+                        r.excepted(key, table[key])
+                        r.ok(key)
+                        continue
+                    r.check(n.attr in d, key, m.where(n), "%s (%s) reads self.%s, which no class of its family in the package defines: AttributeError when this line runs" % (c.name, rel, n.attr), detail="defined in the class family")
+    # (b)
+    lk = [c for rel, c in classes.get("Lookup", []) if rel.startswith("_connect/_numba")]
+    if not lk:
+        raise AnalysisError("class Lookup not found in _connect/_numba")
+    ld = own(lk[0])
+    for rel in [x for x in mods if x.startswith("_connect/_numba")]:
+        m = pf.module(rel)
+        seen = set()
+        for n in ast.walk(m.tree):
+            if isinstance(n, ast.Attribute) and isinstance(n.value, ast.Name) and n.value.id == "lookup" and (rel, n.attr) not in seen:
+                seen.add((rel, n.attr))
+                r.check(n.attr in ld, "%s:lookup.%s" % (rel, n.attr), m.where(n), "%s uses lookup.%s, but the class Lookup defines no such attribute (it has %s)" % (rel, n.attr, sorted(x for x in ld if not x.startswith("_"))[:8]), detail="defined by Lookup")
+    return r.done()
